@@ -1,4 +1,5 @@
 mod props;
+mod mutate;
 mod refcbor;
 mod reqmodel;
 mod respmodel;
